@@ -656,6 +656,7 @@ MANIFEST = dict(
          "implementation is checked to refine it: generated histories are run through both and the pools compared; model-free "
          "search: after every step of 30/100-step histories every pool entry is re-observed (repr, verdicts on probes, structural "
          "encoding, generated value under fixed draws) against its creation-time snapshot, arguments are deep-compared before and "
-         "after, and caller-owned lists/dicts passed in earlier are mutated.",
+         "after, and caller-owned lists/dicts passed in earlier are mutated."
+         " Source pins: the normalised text of every anchor file is compared with the text the model was last validated against; a changed file is a broken obligation (no-failing-input-found unless the search finds an input).",
     note="The theorem is about the spec; aliasing through objects the harness never mutates (e.g. props.keys handed out to callers) "
          "cannot be exhibited — labelled partial. Trusted: Lean kernel + standard axioms, hand model (sampling tie), codec.")
